@@ -1,4 +1,5 @@
 #!/bin/sh
-# Re-checks every compiled Props module and all it depends on with Coq's independent checker and prints the axioms.
+# Re-checks every compiled Props module, the two translator-equality modules, and all they depend on with Coq's independent checker
+# and prints the axioms.
 cd "$(dirname "$0")/../coq" || exit 2
-exec coqchk -silent -o -Q theories RJ $(ls theories/Props/*.v | sed 's|theories/Props/\(.*\)\.v|RJ.Props.\1|' | tr '\n' ' ')
+exec coqchk -silent -o -Q theories RJ $(ls theories/Props/*.v | sed 's|theories/Props/\(.*\)\.v|RJ.Props.\1|' | tr '\n' ' ') RJ.Proofs.TransPlanEq RJ.Proofs.TransPathEq
